@@ -1,6 +1,7 @@
 // U13 (Kani, complete): LIMIT / OFFSET row-window arithmetic.  Statement slices and items extracted from /repo.
 #![allow(dead_code, unused_imports)]
 use std::cmp;
+use std::cmp::min;
 pub struct FullResult { pub n: usize }
 impl FullResult { pub fn len(&self) -> usize { self.n } }
 include!("slices.rs");
@@ -38,6 +39,16 @@ mod proofs {
         let r = partition_limit(&lo);
         let e = lo.limit as u128 + lo.offset as u128;
         assert!(r as u128 == if e > usize::MAX as u128 { usize::MAX as u128 } else { e }, "[partition-limit] per-partition row budget = limit + offset, saturating");
+    }
+
+    // the NULL column is sliced with the same window as every other column: it must yield exactly `count` rows
+    #[kani::proof]
+    fn null_column_window() {
+        let lo = LimitClause { limit: kani::any(), offset: kani::any() };
+        let len: usize = kani::any();
+        let (_limit, offset, count) = output_window(&lo, &FullResult { n: len });
+        let rows = null_column_slice(&len, offset, offset + count);
+        assert!(rows == count, "[null-column-window] a NULL column contributes exactly as many rows as the other columns of the window");
     }
 
     #[kani::proof]
